@@ -266,7 +266,7 @@ def _rules_chunk(item):
     rows_h, rows_c, rows_s = [], [], []
     exp_rows = []          # primary expected strings (T per row), joined
     meta = []              # row -> (mask, cb, m, desc)
-    st = {"cases": 0, "nontrivial": 0, "inadmissible": 0, "dropped_linkorder": 0, "flag_hist": {}}
+    st = {"cases": 0, "nontrivial": 0, "inadmissible": 0, "dropped_linkorder": 0, "dropped_share": 0, "flag_hist": {}}
     outs = set()
     for mask in masks:
         bonds = bonds_of(n, mask)
@@ -328,20 +328,18 @@ def _rules_chunk(item):
             bonds = bonds_of(n, mask)
             miss = frozenset() if m is None else frozenset((m,))
             # alternative admissible readings (computed only for rows that differ from the primary reading)
-            variants = [(R.LENIENT, False, "A-share")]
-            if m is not None:
-                variants += [(R.STRICT, True, "missing-inside"), (R.STRICT, False, "missing-inside")]
-            for mode, share, kind in variants:
-                b2 = R.base(n, bonds, chains[cb], miss, mode, share)
-                if share is False and "A-share" not in b2.flags:
-                    continue
+            def matches(b2, mode):
                 e2 = np.frombuffer("".join(_expected(b2, bends_for(b2, cb, m, mode))).encode("ascii"),
                                    dtype=np.uint8).reshape(T, n)
-                e2 = np.where(sm[r], WILD, e2)
-                if np.array_equal(got, e2):
-                    alt_used[kind] += 1
-                    ok = True
-                    break
+                return np.array_equal(got, np.where(sm[r], WILD, e2))
+
+            kind = _alt_reading(n, bonds, chains[cb], miss, matches)
+            if kind == "undecidable":
+                st["dropped_share"] = st.get("dropped_share", 0) + 1
+                ok = True
+            elif kind:
+                alt_used[kind] += 1
+                ok = True
             if ok:
                 continue
             nviol += 1
@@ -362,6 +360,29 @@ def _rules_chunk(item):
                                                 "expected_per_trace": dict(zip(names, [exp_rows[P // 2][k * n:(k + 1) * n]
                                                                                        for k in range(T)]))}})
     return ("rules", space, n, st, outs, records)
+
+
+def _alt_reading(n, bonds, chain, miss, matches):
+    """Does the observed output equal the reference under one of the admissible alternative readings?
+    Readings: every subset of the A-share junctions links (<= 4 junctions, else undecidable) x
+    {lenient, strict (only with an incomplete residue)}.  Returns the kind of reading or None."""
+    modes = [R.LENIENT] + ([R.STRICT] if miss else [])
+    for mode in modes:
+        keys = set()
+        for sh in (True, False):
+            b2 = R.base(n, bonds, chain, miss, mode, sh)
+            keys |= b2.share_keys
+            if (mode != R.LENIENT or sh is not True) and (sh is True or b2.share_keys) and matches(b2, mode):
+                return "A-share" if mode == R.LENIENT else "missing-inside"
+        if len(keys) > 4:
+            return "undecidable"
+        keys = sorted(keys)
+        for k in range(1, len(keys)):
+            for sub in itertools.combinations(keys, k):
+                b2 = R.base(n, bonds, chain, miss, mode, frozenset(sub))
+                if matches(b2, mode):
+                    return "A-share" if mode == R.LENIENT else "missing-inside"
+    return None
 
 
 def _cls(b, n, bonds):
@@ -538,7 +559,17 @@ def _check_traj(L, label, vkind, tr, st, records, frames_independent=True):
                  "bonds only in dssp(): %s, only in kabsch_sander: %s" % (sorted(set(inner) - set(bonds))[:5],
                                                                           sorted(set(bonds) - set(inner))[:5]))
         cax = xyz[f][caz].astype(np.float64)
-        exp, flags, near = R.assign(n, bonds, cl, missing, cax, R.LENIENT, MARGIN_DEG, True)
+        kaps = [float("nan")] * n
+        for i in range(2, n - 2):
+            if complete[i] and complete[i - 2] and complete[i + 2]:
+                k = R.kappa_deg(cax, i)
+                kaps[i] = k
+                if k == k:
+                    st["min_kappa_dist_deg"] = min(st["min_kappa_dist_deg"], abs(k - 70.0))
+        b0 = R.base(n, bonds, cl, missing, R.LENIENT, True)
+        bend, near = R.bend_flags(b0, kaps, margin_deg=MARGIN_DEG)
+        exp = R.overlay_bends(b0, bend)
+        flags = b0.flags
         for fl in flags:
             st["flag_hist"][fl] = st["flag_hist"].get(fl, 0) + 1
         if "A-linkorder" in flags:
@@ -547,28 +578,18 @@ def _check_traj(L, label, vkind, tr, st, records, frames_independent=True):
         got = full[f]
         cmp_idx = [i for i in range(n) if complete[i] and i not in near]
         st["excluded_near_threshold"] += len(near)
-        for i in range(2, n - 2):
-            if complete[i] and complete[i - 2] and complete[i + 2]:
-                k = R.kappa_deg(cax, i)
-                if k == k:
-                    st["min_kappa_dist_deg"] = min(st["min_kappa_dist_deg"], abs(k - 70.0))
         bad = [i for i in cmp_idx if got[i] != exp[i]]
         if bad:
-            ok = False
-            variants = []
-            if "A-share" in flags:
-                variants.append((R.LENIENT, False, "A-share"))
-            if missing:
-                variants.append((R.STRICT, True, "missing-inside"))
-                if "A-share" in flags:
-                    variants.append((R.STRICT, False, "missing-inside"))
-            for mode, share, kind in variants:
-                e2, _f2, _n2 = R.assign(n, bonds, cl, missing, cax, mode, MARGIN_DEG, share)
-                if all(got[i] == e2[i] for i in cmp_idx):
-                    st["alt_used"][kind] = st["alt_used"].get(kind, 0) + 1
-                    ok = True
-                    break
-            if not ok:
+            def matches(b2, mode):
+                e2 = R.overlay_bends(b2, R.bend_flags(b2, kaps)[0])
+                return all(got[i] == e2[i] for i in cmp_idx)
+
+            kind = _alt_reading(n, bonds, cl, missing, matches)
+            if kind == "undecidable":
+                st["dropped_share"] = st.get("dropped_share", 0) + 1
+            elif kind:
+                st["alt_used"][kind] = st["alt_used"].get(kind, 0) + 1
+            else:
                 sig = "e2e|full-vs-reference|exp=%s|got=%s|%s" % (_letters(exp[i] for i in bad),
                                                                     _letters(got[i] for i in bad), vkind)
                 lo, hi = max(0, bad[0] - 6), min(n, bad[0] + 7)
@@ -730,7 +751,7 @@ def run(ctx):
     res = ctx.pmap(_work, items)
 
     tot = {"cases": 0, "rows": 0, "evaluations": 0, "nontrivial": 0, "inadmissible": 0, "dropped_linkorder": 0,
-           "violations": 0}
+           "violations": 0, "dropped_share": 0}
     flag_hist, alt_used = {}, {}
     per_space = {}
     outs = set()
@@ -794,7 +815,7 @@ def run(ctx):
         "bond_sets_inadmissible_gt2_acceptors": tot["inadmissible"],
         "convention_flag_histogram": flag_hist,
         "accepted_through_alternative_reading": alt_used,
-        "dropped_link_order_dependent": tot["dropped_linkorder"],
+        "dropped_link_order_dependent": tot["dropped_linkorder"], "dropped_more_than_4_share_junctions": tot["dropped_share"],
         "axes": {"n": [2, 3, 4, 5, 6, 7, 8, 10, 12], "max_bonds": K, "break_before": "none,1..n-1",
                  "incomplete": "none, each residue without bonds", "slot_order": ["ascending", "descending"],
                  "traces": ["straight", "corner@k k=2..n-3", "coil"], "seed_phase": ctx.seed},
